@@ -20,7 +20,7 @@ from .appkit import (LINKFORMAT, Driver, LinkFormatError, attrs_key, lf_parse, l
 
 PROPERTY = "C20"
 LEVEL = "exploration"
-RUNS = {"quick": 640, "thorough": 30000}
+RUNS = {"quick": 2000, "thorough": 60000}
 BUDGET = {"quick": 80, "thorough": 3000}
 RULE = ("seeded histories of 6-40 sequential operations by 1-3 real clients against the real "
         "StandaloneResourceDirectory: register / re-register (ep from 3 names, d from 3 sectors, lt valid, "
@@ -52,6 +52,7 @@ EXPECTED_PROBES = ["reg_created", "rereg", "rereg_4xx_live", "update_ok", "updat
                    "lookup_paged", "sweep", "lookup_rich", "resp_from_wire", "blockwise_lookup", "stale_location_404"]
 
 GRACE = 15
+MAX_BODY = 900
 DEFAULT_LT = 90000
 TOL = common.TOL
 LAT = faults.LAT
@@ -90,6 +91,8 @@ def gen_links(r, allow_empty=True):
             attrs.append(["obs", None])
         if r.chance(0.1):
             attrs.append(["title", r.choice(["Room 1", "a,b;c", "x=y"])])
+        elif r.chance(0.06):
+            attrs.append(["title", "long " + "t" * r.choice([150, 280])])  # makes look-up answers block-wise
         if r.chance(0.12):
             # a link about something else: explicit anchor, possibly a foreign target
             attrs.append(["rel", "alt"])
@@ -98,6 +101,8 @@ def gen_links(r, allow_empty=True):
         else:
             href = r.choice(HREFS)
         links.append([href, attrs])
+    while len(lf_write(links).encode("utf-8")) > MAX_BODY:
+        links.pop()  # request bodies stay in one datagram: the write then happens at one known instant
     return links
 
 
@@ -179,7 +184,7 @@ def gen_strict_filter(r, slots, nclients):
         ep, d = r.choice(slots)
         q.append("href=$L:%s:%s" % (ep, "" if d is None else d))
     else:
-        q.append(r.choice(["et=oic.d.sensor", "foo=bar", "foo=baz", "v=1", "ct=40", "ct=0", "if=core.s"]))
+        q.append(r.choice(["et=oic.d.sensor", "et=tag:x", "v=1", "v=2", "x-unk=1"]))
     x = r.random()
     if x < 0.15:
         q.append("count=%d" % r.choice([0, 1, 2, 3, 10]))
@@ -195,7 +200,8 @@ RICH = [["rt=te*"], ["rt=*"], ["if=core.*"], ["ep=a*"], ["ep=*"], ["href=/reg/*"
         ["anchor=$C0/s/t"], ["anchor=coap*"], ["obs"], ["title=Room*"], ["ep=a", "ep=b"], ["zz=1"], ["rel=alt"],
         ["rt=temp", "if=core.s"], ["ep=a", "rt=temp"], ["d=x", "et=oic*"], ["base=coap*"], ["lt=60"],
         ["rt=core.rd-ep"], ["rt=temp", "count=1"], ["ep=node*", "page=0", "count=2"], ["foo=bar*"], ["v=*"],
-        ["obs=x*"], ["obs=*"], ["title=*"], ["ct=4*"], ["rt"], ["ep"]]
+        ["obs=x*"], ["obs=*"], ["title=*"], ["ct=4*"], ["rt"], ["ep"], ["foo=bar"], ["foo=baz"], ["ct=40"], ["ct=0"],
+        ["if=core.s"], ["if=sensor", "rt=temp"], ["foo=bar baz"]]
 MALFORMED = [["page=1"], ["count=abc"], ["page=x", "count=2"], ["page=-1", "count=2"], ["count=-1"],
              ["page=0", "page=1", "count=1"], ["count=1", "count=2"], ["page=1", "count="], ["page", "count=2"],
              ["count"], ["page=1.5", "count=2"]]
@@ -365,6 +371,16 @@ def corpus():
     ops += [_look("ep", ["page=1", "count=2"]), _look("res", ["page=2", "count=3"]), _look("ep", ["count=4"]),
             _look("ep", ["page=1"], mode="malformed"), _look("res", ["obs=x*"], mode="rich")]
     out.append({"clients": 2, "net": {}, "ops": ops})
+    # several criteria in one query; criteria together with page/count; valueless attributes
+    out.append({"clients": 1, "net": {}, "ops": [
+        _reg(0, ["ep=a"], L2), _reg(0, ["ep=a", "d=x"], [["/s/t", [["rt", "temp"], ["obs", None]]]]),
+        _reg(0, ["ep=b", "d=x", "obs"], L2),
+        _look("ep", ["ep=a", "d=x"]), _look("ep", ["d=x", "ep=a"]), _look("res", ["ep=a", "rt=hum"]),
+        _look("res", ["rt=hum", "ep=b"]), _look("ep", ["ep=a", "count=5"]), _look("ep", ["count=5", "ep=a"]),
+        _look("res", ["d=x", "page=0", "count=5"]), {"op": "sweep", "c": 0, "kind": "ep", "q": ["d=x"], "count": 1},
+        {"op": "sweep", "c": 0, "kind": "res", "q": ["rt=temp"], "count": 2},
+        _look("res", ["obs=*"], mode="rich"), _look("ep", ["obs=x*"], mode="rich"), _look("ep", ["rt=te*"], mode="rich"),
+        _look("res", ["obs"], mode="rich")]})
     # requests answered 4.xx must not change anything
     for badq in (["ep=a", "lt=abc"], ["ep=a", "lt=60", "lt=61"], ["ep=a", "rt=x"], ["ep=a", "base=coap://x", "base=coap://y"],
                  ["ep=a", "ep=b"], ["ep=a", "proxy=yes"]):
@@ -457,7 +473,7 @@ class Reg:
         self.lt = DEFAULT_LT
         self.t_write = 0.0
         self.deleted = False
-        self.alt = None  # what failed (4.xx) updates would have left behind, had they been applied
+        self.alts = []  # states that updates answered 4.xx would have left behind, had (some of) them been applied
         self.alt_deleted = None  # index of a failed re-registration after which the entry may be gone
 
     @property
@@ -467,16 +483,16 @@ class Reg:
     def expiry(self):
         return self.t_write + (self.lt + GRACE)
 
-    def status(self, t, alt=False):
+    def status(self, t, alt=None):
         if self.deleted:
             return "dead"
-        e = (self.alt["t_write"] + (self.alt["lt"] + GRACE)) if alt else self.expiry()
+        e = (alt["t_write"] + (alt["lt"] + GRACE)) if alt else self.expiry()
         if abs(t - e) <= TOL:
             return "tie"
         return "live" if t < e else "dead"
 
-    def ep_attrs(self, alt=False):
-        src = self.alt if alt else {"params": self.params, "base": self.base}
+    def ep_attrs(self, alt=None):
+        src = alt if alt else {"params": self.params, "base": self.base}
         a = [("ep", self.key[0])]
         if self.key[1] is not None:
             a.append(("d", self.key[1]))
@@ -594,13 +610,14 @@ def execute(sim, scn):
         if reg is not None:
             if reg.alt_deleted is not None and not present:
                 return "C20/failed-reregistration-deletes"
-            if reg.alt is not None and not reg.deleted:
-                alt_st = reg.status(t, alt=True)
-                if attrs is None and (alt_st == "tie" or present == (alt_st == "live")) and \
-                        reg.status(t) != alt_st:
-                    return "C20/failed-update-applies-lt"
-                if attrs is not None and attrs_key(attrs, drop=("rt", "lt")) == attrs_key(reg.ep_attrs(alt=True)):
-                    return "C20/failed-update-applies-params"
+            if not reg.deleted:
+                for alt in reg.alts:
+                    alt_st = reg.status(t, alt=alt)
+                    if attrs is None and (alt_st == "tie" or present == (alt_st == "live")) and \
+                            reg.status(t) != alt_st:
+                        return "C20/failed-update-applies-lt"
+                    if attrs is not None and attrs_key(attrs, drop=("rt", "lt")) == attrs_key(reg.ep_attrs(alt=alt)):
+                        return "C20/failed-update-applies-params"
         return generic
 
     def payload_text(resp):
@@ -617,8 +634,8 @@ def execute(sim, scn):
 
     # ---- expected look-up content ------------------------------------------------
 
-    def res_entries(reg, alt=False):
-        base = (reg.alt if alt else {"base": reg.base})["base"]
+    def res_entries(reg, alt=None):
+        base = (alt if alt else {"base": reg.base})["base"]
         out = []
         for href, attrs in reg.links:
             ah = urljoin(base, href)
@@ -697,16 +714,16 @@ def execute(sim, scn):
                                   registration=reg.describe())
                     continue
                 # not expected: why is it there?
+                other = [r for r in regs.values() if r.href == href and r.status(t) != "dead"]
+                if other and filters:
+                    violation("C20/lookup-filter-mismatch", lookup=kind, t=t, href=href, query=q,
+                              registration=other[0].describe(), got=[list(a) for a in attrs])
                 cands = [r for r in dead if r.href == href and
                          any(a == ("ep", r.key[0]) for a in attrs)]
                 if cands:
                     reg = cands[0]
                     violation(classify(reg, True, t, "C20/lookup-lists-dead-registration"), lookup=kind, t=t, href=href,
                               registration=reg.describe(), got=[list(a) for a in attrs])
-                other = [r for r in regs.values() if r.href == href and r.status(t) != "dead"]
-                if other:
-                    violation("C20/lookup-filter-mismatch", lookup=kind, t=t, href=href, query=q,
-                              registration=other[0].describe(), got=[list(a) for a in attrs])
                 violation("C20/lookup-lists-unknown-entry", lookup=kind, t=t, href=href, got=[list(a) for a in attrs])
             if not partial:
                 for reg, st, _ in sel:
@@ -725,9 +742,10 @@ def execute(sim, scn):
                     remaining = ms_sub(remaining, want)
                 elif st == "live" and not partial:
                     present = len(ms_list(missing)) < len(ents)
-                    altk = multiset(e[:3] for e in res_entries(reg, alt=True)) if reg.alt else None
                     kindv = "C20/lookup-misses-live-registration"
-                    if altk is not None and not ms_sub(altk, remaining) and reg.alt["base"] != reg.base:
+                    if any(alt["base"] != reg.base and
+                           not ms_sub(multiset(e[:3] for e in res_entries(reg, alt=alt)), remaining)
+                           for alt in reg.alts):
                         kindv = "C20/failed-update-applies-params"
                     elif not present:
                         kindv = classify(reg, False, t, kindv)
@@ -741,20 +759,32 @@ def execute(sim, scn):
                     remaining = ms_sub(remaining, want)
             if remaining:
                 extra = ms_list(remaining)[0]
+                unf = multiset(e[:3] for reg, st, ents in select(kind, [], t) for e in ents)
+                if extra in unf and filters:
+                    violation("C20/lookup-filter-mismatch", lookup=kind, t=t, query=q,
+                              extra=[extra[0], list(extra[1]), extra[2]])
+                for reg, st, _ in select(kind, [], t):
+                    if any(extra in [e[:3] for e in res_entries(reg, alt=alt)] for alt in reg.alts):
+                        violation("C20/failed-update-applies-params", lookup=kind, t=t, query=q,
+                                  registration=reg.describe(), extra=[extra[0], list(extra[1]), extra[2]])
                 for reg in dead:
                     if extra in [e[:3] for e in res_entries(reg)]:
                         violation(classify(reg, True, t, "C20/lookup-lists-dead-registration"), lookup=kind, t=t,
                                   query=q, registration=reg.describe(), extra=[extra[0], list(extra[1]), extra[2]])
-                unf = multiset(e[:3] for reg, st, ents in select(kind, [], t) for e in ents)
                 if extra in unf:
-                    violation("C20/lookup-filter-mismatch" if filters else "C20/lookup-duplicate-entry", lookup=kind,
-                              t=t, query=q, extra=[extra[0], list(extra[1]), extra[2]])
+                    violation("C20/lookup-duplicate-entry", lookup=kind, t=t, query=q,
+                              extra=[extra[0], list(extra[1]), extra[2]])
                 violation("C20/lookup-lists-unknown-entry", lookup=kind, t=t, query=q,
                           extra=[extra[0], list(extra[1]), extra[2]],
                           got=[[h, [list(p) for p in a]] for h, a in entries])
             n_sure = sum(len(ents) for _, st, ents in sel if st == "live")
             n_max = sum(len(ents) for _, _, ents in sel)
         return n_sure, n_max
+
+    def size_kind(pairs):
+        if any(k not in ("page", "count") for k, _ in pairs):
+            return "C20/filtered-pagination-wrong-size"
+        return "C20/pagination-wrong-size"
 
     def pagination(pairs):
         pages = [v for k, v in pairs if k == "page"]
@@ -794,6 +824,8 @@ def execute(sim, scn):
 
     async def op_reg(op):
         path = ALIAS_PATH if op.get("alias") else RD_PATH
+        if len(body_of(op)) > 1000:
+            return  # would go block-wise: no single instant of the write
         tr, resp, rcode, loc, src_base = await do_request(op["c"], POST, path, op["q"], body_of(op), op.get("cf"))
         if tr.t_srv is None or rcode is None:
             return  # never reached the server (or: reached it but no answer was ever produced)
@@ -849,6 +881,8 @@ def execute(sim, scn):
         loc = resolve_loc(op["loc"])
         code = POST if op["m"] == "post" else PUT
         has_body = op.get("links") is not None or "raw" in op
+        if has_body and len(body_of(op)) > 1000:
+            return
         tr, resp, rcode, _, src_base = await do_request(op["c"], code, loc, op["q"], body_of(op) if has_body else b"",
                                                         op.get("cf") if has_body else None)
         if tr.t_srv is None or rcode is None:
@@ -858,16 +892,21 @@ def execute(sim, scn):
         pairs = split_q([subst(s) for s in op["q"]])
         if rcode[0] == 4:
             if st == "live":
-                if op.get("valid"):
+                if op.get("valid") and rcode != (4, 4):
                     sim.anomaly("C20/valid-update-rejected", "%s %s" % (op["q"], rcode))
                 if rcode == (4, 4):
                     violation(classify(reg, False, t, "C20/live-registration-not-found"), t=t,
                               registration=reg.describe())
                 sim.probe("update_4xx_live")
                 sim.nontrivial = True
-                if reg.alt is None:
-                    reg.alt = reg.snapshot()
-                apply_update(reg.alt, pairs, src_base, t)
+                new = []
+                for s0 in [reg.snapshot()] + reg.alts:
+                    s1 = {"lt": s0["lt"], "t_write": s0["t_write"], "base": s0["base"],
+                          "base_explicit": s0["base_explicit"], "params": {k: list(v) for k, v in s0["params"].items()}}
+                    apply_update(s1, pairs, src_base, t)
+                    if s1 not in reg.alts and s1 not in new:
+                        new.append(s1)
+                reg.alts = (reg.alts + new)[-12:]
             elif st in ("dead", "none") and rcode == (4, 4):
                 sim.probe("stale_location_404")
             return
@@ -893,8 +932,8 @@ def execute(sim, scn):
         apply_update(s, pairs, src_base, t)
         reg.lt, reg.t_write, reg.params, reg.base, reg.base_explicit = (s["lt"], s["t_write"], s["params"], s["base"],
                                                                         s["base_explicit"])
-        if reg.alt is not None:
-            apply_update(reg.alt, pairs, src_base, t)
+        for alt in reg.alts:
+            apply_update(alt, pairs, src_base, t)
         if code == PUT:
             reg.links = [(h, [(k, v) for k, v in a]) for h, a in (op.get("links") or [])]
 
@@ -974,8 +1013,10 @@ def execute(sim, scn):
         tr, resp, rcode, _, _ = await do_request(op["c"], GET, path, q)
         if tr.t_srv is None or resp is None:
             return None
-        if resp.opt.block2 is not None or len(resp.payload) > 1024:
+        if len(resp.payload) > 1024:
             sim.probe("blockwise_lookup")
+            if loop.now - tr.t_srv > 60.0:
+                return None  # blocks fetched so slowly that the server may have rendered the tail anew
         note_boundary(tr.t_srv)
         return tr.t_srv, resp, rcode
 
@@ -1006,7 +1047,7 @@ def execute(sim, scn):
                 sim.probe("lookup_paged")
                 lo, hi = page_window(n_sure, page, count), page_window(n_max, page, count)
                 if not (min(lo, hi) <= len(entries) <= max(lo, hi)):
-                    violation("C20/pagination-wrong-size", lookup=op["kind"], query=q, t=t, got=len(entries),
+                    violation(size_kind(pairs), lookup=op["kind"], query=q, t=t, got=len(entries),
                               expected=[lo, hi], matching=[n_sure, n_max])
         else:
             sim.probe("lookup_rich")
@@ -1032,7 +1073,7 @@ def execute(sim, scn):
             n_sure, n_max = check_lookup(op["kind"], q, t, entries, partial=True)
             lo, hi = page_window(n_sure, p, count), page_window(n_max, p, count)
             if not (min(lo, hi) <= len(entries) <= max(lo, hi)):
-                violation("C20/pagination-wrong-size", lookup=op["kind"], query=q, page=p, count=count, t=t,
+                violation(size_kind(split_q(q)), lookup=op["kind"], query=q, page=p, count=count, t=t,
                           got=len(entries), expected=[lo, hi])
             pages.append((t, entries))
             if not entries or p > n_max // count + 2:
@@ -1047,7 +1088,7 @@ def execute(sim, scn):
             allent = [e for _, es in pages for e in es]
             n_sure, _ = check_lookup(op["kind"], [subst(s) for s in op["q"]], t1, allent, partial=False)
             if len(allent) != n_sure:
-                violation("C20/pagination-wrong-size", lookup=op["kind"], query=op["q"], count=count, t=t1,
+                violation(size_kind(split_q(op["q"])), lookup=op["kind"], query=op["q"], count=count, t=t1,
                           got=len(allent), expected=[n_sure, n_sure], pages=len(pages))
 
     async def op_until(op):
@@ -1056,8 +1097,8 @@ def execute(sim, scn):
             await asyncio.sleep(1.0)
             return
         e = reg.expiry()
-        if op.get("which") == "alt" and reg.alt is not None:
-            e = reg.alt["t_write"] + (reg.alt["lt"] + GRACE)
+        if op.get("which") == "alt" and reg.alts:
+            e = reg.alts[-1]["t_write"] + (reg.alts[-1]["lt"] + GRACE)
         target = e + op["off"] - LAT
         if target - loop.now > 400000 or target <= loop.now:
             await asyncio.sleep(1.0)
